@@ -314,6 +314,21 @@ Definition authenticate_impersonation (na : node_auth) (cluster_id : string) (k 
   | Some ps => cluster_authenticate_impersonation (na_trusted na) ps k requested
   end.
 
+(* ------------------------------------------------------------------ CA errors -> gRPC status *)
+
+(* pki/error ErrType values a CertificateAuthority may return, and CreateCertificate's status code for
+   them (caerror.Error.HTTPErrorCode): 3 = InvalidArgument, 13 = Internal *)
+Inductive ca_err_kind := KNotReady | KCsr | KTtl | KCertGen | KIllegalConfig | KInitFail.
+
+Definition grpc_code (k : ca_err_kind) : N :=
+  match k with
+  | KCsr | KTtl => 3%N
+  | KNotReady | KCertGen | KIllegalConfig | KInitFail => 13%N
+  end.
+
+Definition kind_of_sign_err (e : sign_err) : ca_err_kind :=
+  match e with ENotReady => KNotReady | ECsr => KCsr | ETtl => KTtl | ECertGen => KCertGen end.
+
 (* ------------------------------------------------------------------ histories of one cluster's authorizer *)
 
 (* what happens to one long-lived ClusterNodeAuthorizer: pod events seen by its informer (an add of an
